@@ -13,6 +13,7 @@ type calleeInfo struct {
 	key      string // contract key
 	keys     []string // candidate keys (first with a contract wins)
 	recvExpr ast.Expr
+	ownerExpr ast.Expr // call of a function-typed field x.f(...): x (bound to an extra first contract parameter, if declared)
 	sig      *types.Signature
 	fc       *FuncContract
 	display  string
@@ -86,6 +87,7 @@ func (fx *FnCtx) resolveCallee(st *State, call *ast.CallExpr) *calleeInfo {
 				if n := typeBaseName(t); n != "" {
 					owner = n
 				}
+				ci.ownerExpr = f.X
 				ci.keys = []string{owner + "." + fld.Name()}
 				if n := typeBaseName(fld.Type()); n != "" {
 					ci.keys = append(ci.keys, n)
@@ -161,6 +163,11 @@ func (fx *FnCtx) callStmt(st *State, call *ast.CallExpr) []outcome {
 // the returned function writes the cell back into x after the call.
 func (fx *FnCtx) evalRecv(st *State, ci *calleeInfo) (*Val, func(*State)) {
 	if ci.recvExpr == nil {
+		// x.f(args) with f a function-typed field whose contract declares the owner as an extra first parameter
+		if ci.ownerExpr != nil && ci.fc != nil && ci.sig != nil && len(ci.fc.Params) == ci.sig.Params().Len()+1 {
+			ov := fx.eval(st, ci.ownerExpr)
+			return &ov, nil
+		}
 		return nil, nil
 	}
 	v := fx.eval(st, ci.recvExpr)
@@ -727,10 +734,10 @@ func (fx *FnCtx) applyCall(st *State, ci *calleeInfo, recv *Val, args []Val, at 
 		for _, c := range cas {
 			fx.stmtAssertHit[c] = true
 			ce := fx.envAt(st, at.Pos())
-			ce.bound = map[string]Val{}
+			ce.callee = map[string]Val{}
 			for k, v := range cenv.named {
 				if _, clash := st.named[k]; !clash {
-					ce.bound[k] = v // parameter names of the callee (where they do not shadow a caller name)
+					ce.callee[k] = v // parameter names of the callee (where they do not shadow a caller name)
 				}
 			}
 			goal := fx.specBool(ce, c.Expr)
@@ -831,7 +838,7 @@ func (fx *FnCtx) applyCall(st *State, ci *calleeInfo, recv *Val, args []Val, at 
 		}
 		st.assume(fx.specBool(cenv, e.Expr))
 	}
-	st.calls = append(st.calls, callRec{key: ci.key, named: copyNamed(cenv.named)})
+	st.calls = append(st.calls, callRec{key: ci.key, named: copyNamed(cenv.named), heap: copyHeapMap(preHeap)})
 	res = append(res, outcome{st: st})
 	return res
 }
@@ -916,4 +923,12 @@ func (fx *FnCtx) callOrdinal(ce *ast.CallExpr) int {
 		})
 	}
 	return fx.callOrd[ce]
+}
+
+func copyHeapMap(m map[string]string) map[string]string {
+	n := make(map[string]string, len(m))
+	for k, v := range m {
+		n[k] = v
+	}
+	return n
 }
